@@ -4,6 +4,7 @@ import (
 	"crypto/md5"
 	"encoding/json"
 	"fmt"
+	"os"
 	"sort"
 	"strings"
 	"sync"
@@ -386,6 +387,10 @@ func TestCheck(t *testing.T) {
 	r := vk.Start("C09", "model_checking", 150*time.Second, 23*time.Minute)
 	defer vk.CleanScratch()
 	if r.Replay != "" {
+		if isAliasReplay(r) {
+			replayAlias(r)
+			return
+		}
 		replay(r)
 		return
 	}
@@ -399,6 +404,11 @@ func TestCheck(t *testing.T) {
 	for i := 0; i < r.Workers(); i++ {
 		e.envs <- newEnv()
 	}
+	// round 2: answers must not depend on memory the caller still owns (alias_*.go)
+	alias := newAliasStats()
+	if os.Getenv("C09_PHASE") != "noalias" { // development switch: skip the round-2 phase
+		alias = runAlias(r, e.envs)
+	}
 	maxDepth := 0
 	for _, f := range fams {
 		if f.Depth > maxDepth {
@@ -410,6 +420,9 @@ func TestCheck(t *testing.T) {
 		first int
 	}
 	depthDone := map[string]int{}
+	if os.Getenv("C09_PHASE") == "alias" { // development switch: only the round-2 phase
+		maxDepth = -1
+	}
 	for depth := 0; depth <= maxDepth; depth++ {
 		var jobs []job
 		for _, c := range cases {
@@ -495,7 +508,7 @@ func TestCheck(t *testing.T) {
 	for k, v := range e.out {
 		outc[k] = v
 	}
-	r.Finish(map[string]any{
+	cov := map[string]any{
 		"states":                        e.states.Len(),
 		"transitions":                   int(e.opsRun.Get()),
 		"traces_validated_against_impl": int(e.nodes.Get()),
@@ -510,7 +523,9 @@ func TestCheck(t *testing.T) {
 		"query_outcome_counts":          outc,
 		"persist_count_differs":         int(e.countMis.Get()),
 		"root_cause_occurrences":        e.co.count,
-	}, []string{
+	}
+	alias.coverage(cov)
+	r.Finish(cov, []string{
 		"reference = one Go map per level; Seek semantics are those of SeekRange's doc comment (forwards: keys >= Prefix+Start, backwards: keys <= Prefix+Start, within Prefix); SearchDepth k = net effect of the top k cache layers, 0 or k > layers = everything",
 		"every model state of a stack gets the full battery once (first time it is reached, by the shortest sequences); later visits of the same state run point reads of every key and whole-class scans on every level",
 		"cache layers are queried with non-empty prefixes only (documented restriction); the empty prefix is used on BoltDB/LevelDB directly",
@@ -518,6 +533,10 @@ func TestCheck(t *testing.T) {
 		"disk backends are real files under /dev/shm, opened once per worker and emptied between cases; replay uses freshly created files",
 		"a cancelled SeekAsync may deliver further results: they must continue the expected sequence",
 		"the count returned by Persist is recorded, not judged; SeekAsync on non-top layers only without Start; values are not mutated through returned slices",
+		"round 2 (alias_*.go): a caller may reuse the memory it passed in (Find prefix Buffer, SeekAsync/dao.Seek range slices, Put key/value) as soon as the call has returned; the caller's overwrite of SeekAsync arguments is placed deterministically by a hook store between backend and layers (when the scan goroutine enters the lower store's Seek, or after its 1st/2nd pair) - each is a legal moment for a caller holding the returned channel; a synchronous Store.Seek may keep reading its range while it runs (only dao.Seek's user prefix is overwritten inside the callback)",
+		"round 2: stack items returned by Iterator.Value and pairs delivered by SeekAsync are read again after the scan is over (and after Finalize) and must still be the reference; reading one position twice gives two independent items",
+		"round 2: a scan whose range is written during the iteration (not documented as a snapshot) is judged on the untouched keys only (each once, in order, right value; the touched key at most once); the following scan is judged exactly",
+		"PutChangeSet keeps the maps' value slices by design (bulk hand-over used by Persist): not part of the reuse oracle",
 	})
 }
 
